@@ -530,17 +530,22 @@ Fixpoint dec_nodes (uid : nat) (l : list J) : option (list node) :=
 (* ------------------------------------------------------------------ the judge *)
 Definition check_C03 (kind : string) (input output : J) : verdict :=
   if String.eqb kind "syn" then
-    (* in = [term_tag, nodes, partitions]; out = ["ok", descs, opinfo, execs, prefix_values] *)
+    (* in = [term_tag, nodes, partitions];
+       out = ["ok", descs, opinfo, execs, [prefix_values, explain node types of the optimised chain]] *)
     match input, output with
-    | JL [jt; JL jnodes; jp], JL [JS ok; jd; jo; je; jx] =>
+    | JL [jt; JL jnodes; jp], JL [JS ok; jd; jo; je; JL [jx; jexp]] =>
         match dec_tagname jt, dec_nodes 0 jnodes, dec_nat jp,
-              dec_descs jd, dec_opinfos jo, dec_obss je, dec_obss jx with
-        | Some term, Some raw, Some parts, Some ds, Some ois, Some os, Some pre =>
+              dec_descs jd, dec_opinfos jo, dec_obss je, dec_obss jx, dec_strs jexp with
+        | Some term, Some raw, Some parts, Some ds, Some ois, Some os, Some pre, Some exp =>
             if tag_is ok "ok" then
               let c := judge_common term raw parts ds ois os in
-              finish c (prefixes_agree raw (mid_mats 0 raw) pre) true (sem_prop term raw os pre)
+              finish c
+                     (prefixes_agree raw (mid_mats 0 raw) pre
+                      && strs_eqb (map kind_name (explain (optimise raw))) exp)
+                     (strs_eqb (map ndesc_name (optimised_desc ds)) exp)
+                     (sem_prop term raw os pre)
             else malformed
-        | _, _, _, _, _, _, _ => malformed
+        | _, _, _, _, _, _, _, _ => malformed
         end
     | _, _ => malformed
     end
